@@ -229,6 +229,299 @@ func refCmd(w *bufio.Writer, seed int64, n int) {
 			hit("recovery-codec-drops-payloads", "decode(encode(recovery message with two responses)) yields %d responses", len(rs))
 		}
 	}
+	// ---- recovery-message compaction / reconstruction: generated packing sequences, printed for the Coq model
+	// (Ref/Recovery.v) and judged by monitors of their own.  All numbers in hex.
+	//   RMNEW <hash|->   RMADD <kind> <height> <view> <index> <body...>   RMHDR <height> <view> <index> <ind>
+	//   RMOUT <stage> <canonical dump>     stage 0 = on the sender, stage 1 = after encode/decode of the recovery payload
+	{
+		hx := func(b []byte) string { return hex.EncodeToString(b) }
+		dump := func(rm dbft.RecoveryMessage[U], hdr dbft.ConsensusPayload[U], ind uint16) string {
+			hd := func(p dbft.ConsensusPayload[U]) string {
+				return fmt.Sprintf("%x.%x.%x", p.Height(), p.ViewNumber(), p.ValidatorIndex())
+			}
+			join := func(l []string) string {
+				if len(l) == 0 {
+					return "-"
+				}
+				s := l[0]
+				for _, x := range l[1:] {
+					s += "," + x
+				}
+				return s
+			}
+			req := "-"
+			if q := rm.GetPrepareRequest(hdr, nil, ind); q != nil {
+				pq := q.GetPrepareRequest()
+				hs := ""
+				for i, h := range pq.TransactionHashes() {
+					if i > 0 {
+						hs += "+"
+					}
+					hs += hx(h[:])
+				}
+				if pq.Timestamp()%1_000_000_000 != 0 {
+					hit("rebuilt-request-timestamp", "a rebuilt PrepareRequest has a timestamp that is not a whole number of seconds")
+				}
+				req = fmt.Sprintf("%s.%x.%x.%s", hd(q), pq.Timestamp()/1_000_000_000, pq.Nonce(), hs)
+			}
+			var resp, cv, pc, cm []string
+			for _, p := range rm.GetPrepareResponses(hdr, nil) {
+				h := p.GetPrepareResponse().PreparationHash()
+				resp = append(resp, hd(p)+"."+hx(h[:]))
+			}
+			for _, p := range rm.GetChangeViews(hdr, nil) {
+				cv = append(cv, fmt.Sprintf("%s.%x", hd(p), p.GetChangeView().NewViewNumber())) // (the interface has no timestamp getter)
+			}
+			for _, p := range rm.GetPreCommits(hdr, nil) {
+				d := p.GetPreCommit().Data()
+				v := uint32(0)
+				for _, b := range d {
+					v = v<<8 | uint32(b)
+				}
+				pc = append(pc, fmt.Sprintf("%s.%x", hd(p), v))
+			}
+			for _, p := range rm.GetCommits(hdr, nil) {
+				cm = append(cm, hd(p)+"."+hx(p.GetCommit().Signature()))
+			}
+			return fmt.Sprintf("req=%s resp=%s cv=%s pc=%s cm=%s", req, join(resp), join(cv), join(pc), join(cm))
+		}
+		ncase := n/4 + 30
+		for c := 0; c < ncase; c++ {
+			height := uint32(rng.Intn(1 << 20))
+			view := byte(rng.Intn(4))
+			if rng.Intn(10) == 0 {
+				view = byte(252 + rng.Intn(4))
+			}
+			var ph *U
+			if rng.Intn(3) == 0 {
+				h := rh()
+				ph = &h
+				fmt.Fprintf(w, "RMNEW %s\n", hx(h[:]))
+			} else {
+				fmt.Fprintf(w, "RMNEW -\n")
+			}
+			rm := consensus.NewRecoveryMessage(ph)
+			var lastReq dbft.ConsensusPayload[U]
+			type sent struct {
+				idx uint16
+				sig []byte
+				mg  uint32
+			}
+			var cms, pcs []sent
+			ncv, nresp := 0, 0
+			k := rng.Intn(9)
+			for j := 0; j < k; j++ {
+				ph_, pv := height, view
+				if rng.Intn(4) == 0 { // a payload of another view (commits and ChangeViews of earlier views are packed too)
+					pv = byte(rng.Intn(256))
+				}
+				if rng.Intn(12) == 0 {
+					ph_ = uint32(rng.Intn(1 << 20))
+				}
+				idx := uint16(rng.Intn(7))
+				if rng.Intn(20) == 0 {
+					idx = uint16(rng.Intn(1 << 16))
+				}
+				var p dbft.ConsensusPayload[U]
+				switch kind := rng.Intn(12); {
+				case kind < 2:
+					nv, ts := byte(rng.Intn(256)), uint64(rng.Uint32())
+					p = consensus.NewConsensusPayload(dbft.ChangeViewType, ph_, idx, pv, consensus.NewChangeView(nv, dbft.CVTimeout, ts*1_000_000_000))
+					fmt.Fprintf(w, "RMADD CV %x %x %x %x %x\n", ph_, pv, idx, nv, ts)
+					ncv++
+				case kind < 4:
+					ts, nonce := uint64(rng.Uint32()), rng.Uint64()
+					if rng.Intn(5) == 0 {
+						ts = 0xffffffff
+					}
+					hs := make([]U, rng.Intn(4))
+					s := ""
+					for i := range hs {
+						hs[i] = rh()
+						s += " " + hx(hs[i][:])
+					}
+					p = consensus.NewConsensusPayload(dbft.PrepareRequestType, ph_, idx, pv, consensus.NewPrepareRequest(ts*1_000_000_000, nonce, hs))
+					pqh := p.Hash() // the model takes the payload hash as a given function of the content: the value is handed over
+					fmt.Fprintf(w, "RMADD PQ %x %x %x %x %x %x%s %s\n", ph_, pv, idx, ts, nonce, len(hs), s, hx(pqh[:]))
+					lastReq = p
+				case kind < 7:
+					h := rh()
+					if lastReq != nil && rng.Intn(3) > 0 {
+						h = lastReq.Hash()
+					}
+					p = consensus.NewConsensusPayload(dbft.PrepareResponseType, ph_, idx, pv, consensus.NewPrepareResponse(h))
+					fmt.Fprintf(w, "RMADD PR %x %x %x %s\n", ph_, pv, idx, hx(h[:]))
+					nresp++
+				case kind < 9:
+					sig := make([]byte, 64)
+					rng.Read(sig)
+					p = consensus.NewConsensusPayload(dbft.CommitType, ph_, idx, pv, consensus.NewCommit(sig))
+					fmt.Fprintf(w, "RMADD CM %x %x %x %s\n", ph_, pv, idx, hx(sig))
+					cms = append(cms, sent{idx: idx, sig: sig})
+				case kind < 11:
+					mg := rng.Uint32()
+					if rng.Intn(4) == 0 {
+						mg = []uint32{0, 1, 0xff, 0x100, 0xffffffff, 0x01000000}[rng.Intn(6)]
+					}
+					d := []byte{byte(mg >> 24), byte(mg >> 16), byte(mg >> 8), byte(mg)}
+					p = consensus.NewConsensusPayload(dbft.PreCommitType, ph_, idx, pv, consensus.NewPreCommit(d))
+					fmt.Fprintf(w, "RMADD PC %x %x %x %x\n", ph_, pv, idx, mg)
+					pcs = append(pcs, sent{idx: idx, mg: mg})
+				default:
+					p = consensus.NewConsensusPayload(dbft.RecoveryRequestType, ph_, idx, pv, consensus.NewRecoveryRequest(uint64(rng.Uint32())*1_000_000_000))
+					fmt.Fprintf(w, "RMADD RR %x %x %x\n", ph_, pv, idx)
+				}
+				rm.AddPayload(p)
+			}
+			hidx := uint16(rng.Intn(7))
+			ind := uint16(rng.Intn(7))
+			if lastReq != nil && rng.Intn(4) > 0 {
+				ind = lastReq.ValidatorIndex()
+			}
+			rp := consensus.NewConsensusPayload(dbft.RecoveryMessageType, height, hidx, view, rm)
+			fmt.Fprintf(w, "RMHDR %x %x %x %x\n", height, view, hidx, ind)
+			for stage := 0; stage < 2; stage++ {
+				hdr, m := rp, dbft.RecoveryMessage[U](rm)
+				if stage == 1 {
+					q, err := roundTrip(rp)
+					if err != nil {
+						hit("decode-rejects-own-encoding", "generated recovery message: %v", err)
+						break
+					}
+					hdr, m = q, q.GetRecoveryMessage()
+				}
+				fmt.Fprintf(w, "RMOUT %d %s\n", stage, dump(m, hdr, ind))
+				// monitors, independent of the model
+				checks++
+				if lastReq != nil {
+					q := m.GetPrepareRequest(hdr, nil, ind)
+					if q == nil {
+						hit("rebuilt-request-missing", "a recovery message that packs a PrepareRequest rebuilds none (stage %d)", stage)
+					} else if lastReq.Height() == height && lastReq.ViewNumber() == view && lastReq.ValidatorIndex() == ind && q.Hash() != lastReq.Hash() {
+						hit("rebuilt-request-hash", "the PrepareRequest rebuilt from a recovery message of its height and view does not have the original's hash (stage %d)", stage)
+					}
+				}
+				rs := m.GetPrepareResponses(hdr, nil)
+				want := U{}
+				have := false
+				if lastReq != nil {
+					want, have = lastReq.Hash(), true
+				} else if ph != nil {
+					want, have = *ph, true
+				}
+				if have && len(rs) != nresp {
+					if stage == 1 && lastReq != nil && len(rs) == 0 && nresp > 0 {
+						hit("recovery-codec-loses-responses-packed-with-request", "decode(encode(recovery message holding the PrepareRequest and %d PrepareResponses)) yields no PrepareResponse", nresp)
+					} else {
+						hit("recovery-drops-payloads", "%d PrepareResponses packed, %d rebuilt (stage %d)", nresp, len(rs), stage)
+					}
+				}
+				for _, r := range rs {
+					if have && r.GetPrepareResponse().PreparationHash() != want {
+						hit("rebuilt-response-hash", "a rebuilt PrepareResponse does not name the packed proposal (stage %d)", stage)
+					}
+				}
+				gc, gp, gv := m.GetCommits(hdr, nil), m.GetPreCommits(hdr, nil), m.GetChangeViews(hdr, nil)
+				if len(gc) != len(cms) || len(gp) != len(pcs) || len(gv) != ncv {
+					hit("recovery-drops-payloads", "packed %d commits %d pre-commits %d change views, rebuilt %d %d %d (stage %d)", len(cms), len(pcs), ncv, len(gc), len(gp), len(gv), stage)
+				} else {
+					for i, p := range gc {
+						if p.ValidatorIndex() != cms[i].idx || !bytes.Equal(p.GetCommit().Signature(), cms[i].sig) || p.Height() != height {
+							hit("rebuilt-commit-differs", "rebuilt Commit %d has another signer or signature than the packed one (stage %d)", i, stage)
+						}
+					}
+					for i, p := range gp {
+						d := p.GetPreCommit().Data()
+						if p.ValidatorIndex() != pcs[i].idx || len(d) != 4 || (uint32(d[0])<<24|uint32(d[1])<<16|uint32(d[2])<<8|uint32(d[3])) != pcs[i].mg {
+							hit("rebuilt-precommit-differs", "rebuilt PreCommit %d has another sender or data than the packed one (stage %d)", i, stage)
+						}
+					}
+				}
+			}
+		}
+	}
+	// ---- encode/decode of generated payloads of every packable kind, printed for the model's `transmit_payload`
+	//   PT <kind> <height> <view> <index> <body...>      PTOUT <canonical dump of decode(encode(p))>
+	{
+		hx := func(b []byte) string { return hex.EncodeToString(b) }
+		for c := 0; c < n/4+30; c++ {
+			ph_, pv, idx := uint32(rng.Intn(1<<20)), byte(rng.Intn(256)), uint16(rng.Intn(1<<16))
+			if c%16 == 0 {
+				ph_ = 0xffffffff
+			}
+			var p dbft.ConsensusPayload[U]
+			switch c % 5 {
+			case 0:
+				nv, ts := byte(rng.Intn(256)), uint64(rng.Uint32())
+				if rng.Intn(2) == 0 {
+					nv = pv + 1 // what the library itself sends
+				}
+				p = consensus.NewConsensusPayload(dbft.ChangeViewType, ph_, idx, pv, consensus.NewChangeView(nv, dbft.CVTimeout, ts*1_000_000_000))
+				fmt.Fprintf(w, "PT CV %x %x %x %x %x\n", ph_, pv, idx, nv, ts)
+			case 1:
+				ts, nonce := uint64(rng.Uint32()), rng.Uint64()
+				hs := make([]U, rng.Intn(4))
+				s := ""
+				for i := range hs {
+					hs[i] = rh()
+					s += " " + hx(hs[i][:])
+				}
+				p = consensus.NewConsensusPayload(dbft.PrepareRequestType, ph_, idx, pv, consensus.NewPrepareRequest(ts*1_000_000_000, nonce, hs))
+				fmt.Fprintf(w, "PT PQ %x %x %x %x %x %x%s -\n", ph_, pv, idx, ts, nonce, len(hs), s)
+			case 2:
+				h := rh()
+				p = consensus.NewConsensusPayload(dbft.PrepareResponseType, ph_, idx, pv, consensus.NewPrepareResponse(h))
+				fmt.Fprintf(w, "PT PR %x %x %x %s\n", ph_, pv, idx, hx(h[:]))
+			case 3:
+				sig := make([]byte, 64)
+				rng.Read(sig)
+				p = consensus.NewConsensusPayload(dbft.CommitType, ph_, idx, pv, consensus.NewCommit(sig))
+				fmt.Fprintf(w, "PT CM %x %x %x %s\n", ph_, pv, idx, hx(sig))
+			default:
+				mg := rng.Uint32()
+				p = consensus.NewConsensusPayload(dbft.PreCommitType, ph_, idx, pv, consensus.NewPreCommit([]byte{byte(mg >> 24), byte(mg >> 16), byte(mg >> 8), byte(mg)}))
+				fmt.Fprintf(w, "PT PC %x %x %x %x\n", ph_, pv, idx, mg)
+			}
+			checks++
+			q, err := roundTrip(p)
+			if err != nil {
+				hit("decode-rejects-own-encoding", "generated payload type %v: %v", p.Type(), err)
+				continue
+			}
+			hd := fmt.Sprintf("%x.%x.%x", q.Height(), q.ViewNumber(), q.ValidatorIndex())
+			switch q.Type() {
+			case dbft.ChangeViewType:
+				fmt.Fprintf(w, "PTOUT CV %s.%x\n", hd, q.GetChangeView().NewViewNumber())
+			case dbft.PrepareRequestType:
+				pq := q.GetPrepareRequest()
+				s := ""
+				for i, h := range pq.TransactionHashes() {
+					if i > 0 {
+						s += "+"
+					}
+					s += hx(h[:])
+				}
+				fmt.Fprintf(w, "PTOUT PQ %s.%x.%x.%s\n", hd, pq.Timestamp()/1_000_000_000, pq.Nonce(), s)
+			case dbft.PrepareResponseType:
+				h := q.GetPrepareResponse().PreparationHash()
+				fmt.Fprintf(w, "PTOUT PR %s.%s\n", hd, hx(h[:]))
+			case dbft.CommitType:
+				fmt.Fprintf(w, "PTOUT CM %s.%s\n", hd, hx(q.GetCommit().Signature()))
+			case dbft.PreCommitType:
+				d := q.GetPreCommit().Data()
+				v := uint32(0)
+				for _, b := range d {
+					v = v<<8 | uint32(b)
+				}
+				fmt.Fprintf(w, "PTOUT PC %s.%x\n", hd, v)
+			default:
+				fmt.Fprintf(w, "PTOUT ?? %s\n", hd)
+			}
+			if q2, err := roundTrip(q); err != nil || !bytes.Equal(q2.(*consensus.Payload).MarshalUnsigned(), q.(*consensus.Payload).MarshalUnsigned()) || q2.Hash() != q.Hash() {
+				hit("roundtrip-differs", "generated payload type %v: a decoded payload is not reproduced by encode/decode", q.Type())
+			}
+		}
+	}
 	// decoders fail cleanly on arbitrary bytes
 	good := consensus.NewConsensusPayload(dbft.PrepareRequestType, 10, 1, 0, mkBody(dbft.PrepareRequestType, 0)).(*consensus.Payload).MarshalUnsigned()
 	for i := 0; i < n; i++ {
